@@ -29,6 +29,11 @@ const (
 	OBvXor
 	OShl
 	OLshr
+	OAshr
+	OUdiv
+	OUrem
+	OSdiv
+	OSrem
 	OZext // width change (zero extend or truncate)
 	OSext
 )
@@ -172,7 +177,7 @@ func Not(a *Term) *Term {
 func nary(op Op, unit, zero *Term, xs []*Term) *Term {
 	var out []*Term
 	var eqc map[int]uint64
-	seen := map[int]bool{}
+	seen := idset{}
 	for _, x := range xs {
 		if x == zero {
 			return zero
@@ -187,15 +192,15 @@ func nary(op Op, unit, zero *Term, xs []*Term) *Term {
 			parts = []*Term{x}
 		}
 		for _, p := range parts {
-			if seen[p.id] {
+			if seen.has(p.id) {
 				continue
 			}
 			// complementary (without constructing new terms)
 			if p.op == ONot {
-				if seen[p.args[0].id] {
+				if seen.has(p.args[0].id) {
 					return zero
 				}
-			} else if n, ok := negOf[p.id]; ok && seen[n.id] {
+			} else if n, ok := negOf[p.id]; ok && seen.has(n.id) {
 				return zero
 			}
 			if op == OAnd && p.op == OEq && p.args[0].IsConst() != p.args[1].IsConst() {
@@ -211,8 +216,27 @@ func nary(op Op, unit, zero *Term, xs []*Term) *Term {
 				}
 				eqc[v.id] = k.val
 			}
-			seen[p.id] = true
+			seen.add(p.id)
 			out = append(out, p)
+		}
+	}
+	// ¬(a∧b) together with a and b (dually for or): contradiction / tautology
+	for _, p := range out {
+		if p.op != ONot {
+			continue
+		}
+		q := p.args[0]
+		if op == OAnd && q.op == OAnd || op == OOr && q.op == OOr {
+			all := true
+			for _, a := range q.args {
+				if !seen.has(a.id) {
+					all = false
+					break
+				}
+			}
+			if all {
+				return zero
+			}
 		}
 	}
 	if len(out) == 0 {
@@ -309,7 +333,28 @@ func Ite(c, a, b *Term) *Term {
 	return mk(&Term{op: OIte, width: a.width, args: []*Term{c, a, b}})
 }
 
+var eqMemo = map[[2]int]*Term{}
+
 func Eq(a, b *Term) *Term {
+	if a == b {
+		return TTrue
+	}
+	if a.IsConst() && b.IsConst() {
+		return BoolC(a.val == b.val)
+	}
+	k := [2]int{a.id, b.id}
+	if a.id > b.id {
+		k = [2]int{b.id, a.id}
+	}
+	if r, ok := eqMemo[k]; ok {
+		return r
+	}
+	r := eq1(a, b)
+	eqMemo[k] = r
+	return r
+}
+
+func eq1(a, b *Term) *Term {
 	if a == b {
 		return TTrue
 	}
@@ -351,7 +396,25 @@ func bin(op Op, a, b *Term, f func(x, y uint64) uint64) *Term {
 	return mk(&Term{op: op, width: a.width, args: []*Term{a, b}})
 }
 
+var addMemo = map[[2]int]*Term{}
+
 func Add(a, b *Term) *Term {
+	if b.IsConst() && b.val == 0 {
+		return a
+	}
+	if a.IsConst() && a.val == 0 {
+		return b
+	}
+	k := [2]int{a.id, b.id}
+	if r, ok := addMemo[k]; ok {
+		return r
+	}
+	r := add1(a, b)
+	addMemo[k] = r
+	return r
+}
+
+func add1(a, b *Term) *Term {
 	if b.IsConst() && b.val == 0 {
 		return a
 	}
@@ -391,7 +454,27 @@ func sext(v uint64, w int) int64 {
 	return int64(v)
 }
 
+type cmpKey struct {
+	op   Op
+	a, b int
+}
+
+var cmpMemo = map[cmpKey]*Term{}
+
 func cmp(op Op, a, b *Term) *Term {
+	if !(a.IsConst() && b.IsConst()) {
+		k := cmpKey{op, a.id, b.id}
+		if r, ok := cmpMemo[k]; ok {
+			return r
+		}
+		r := cmp1(op, a, b)
+		cmpMemo[k] = r
+		return r
+	}
+	return cmp1(op, a, b)
+}
+
+func cmp1(op Op, a, b *Term) *Term {
 	if a.IsConst() && b.IsConst() {
 		switch op {
 		case OUlt:
@@ -406,6 +489,14 @@ func cmp(op Op, a, b *Term) *Term {
 	}
 	if a == b {
 		return BoolC(op == OUle || op == OSle)
+	}
+	// canonical form: a signed comparison of two provably non-negative values is the unsigned one
+	if (op == OSlt || op == OSle) && a.hasIv && b.hasIv && a.hi < (uint64(1)<<uint(a.width-1)) && b.hi < (uint64(1)<<uint(b.width-1)) {
+		if op == OSlt {
+			op = OUlt
+		} else {
+			op = OUle
+		}
 	}
 	// interval reasoning (valid for signed too when both intervals are within non-negative signed range)
 	if a.hasIv && b.hasIv {
@@ -442,7 +533,27 @@ func Ule(a, b *Term) *Term { return cmp(OUle, a, b) }
 func Slt(a, b *Term) *Term { return cmp(OSlt, a, b) }
 func Sle(a, b *Term) *Term { return cmp(OSle, a, b) }
 
+type rszKey struct {
+	a, w int
+	s    bool
+}
+
+var rszMemo = map[rszKey]*Term{}
+
 func Resize(a *Term, w int, signed bool) *Term {
+	if a.width == w {
+		return a
+	}
+	k := rszKey{a.id, w, signed}
+	if r, ok := rszMemo[k]; ok {
+		return r
+	}
+	r := resize1(a, w, signed)
+	rszMemo[k] = r
+	return r
+}
+
+func resize1(a *Term, w int, signed bool) *Term {
 	if a.width == w {
 		return a
 	}
@@ -533,4 +644,106 @@ func (t *Term) body() string {
 		return fmt.Sprintf("((_ sign_extend %d) %s)", t.width-t.args[0].width, a(0))
 	}
 	panic("body: op")
+}
+
+// withIv returns t; if t carries no interval yet, records [lo,hi] (the caller guarantees it holds on every feasible path).
+func withIv(t *Term, lo, hi uint64) *Term {
+	if t.IsConst() {
+		return t
+	}
+	if !t.hasIv {
+		t.hasIv, t.lo, t.hi = true, lo, hi
+	} else {
+		if lo > t.lo {
+			t.lo = lo
+		}
+		if hi < t.hi {
+			t.hi = hi
+		}
+	}
+	return t
+}
+
+// idset: small-set of term ids (linear for few elements, map beyond)
+type idset struct {
+	small []int
+	m     map[int]bool
+}
+
+func (s *idset) has(id int) bool {
+	if s.m != nil {
+		return s.m[id]
+	}
+	for _, x := range s.small {
+		if x == id {
+			return true
+		}
+	}
+	return false
+}
+
+func (s *idset) add(id int) {
+	if s.m != nil {
+		s.m[id] = true
+		return
+	}
+	s.small = append(s.small, id)
+	if len(s.small) > 24 {
+		s.m = make(map[int]bool, 64)
+		for _, x := range s.small {
+			s.m[x] = true
+		}
+		s.small = nil
+	}
+}
+
+// BinBV builds a bit-vector binary operation with constant folding (Go semantics for the given width).
+func BinBV(op Op, a, b *Term) *Term {
+	w := a.width
+	return bin(op, a, b, func(x, y uint64) uint64 {
+		switch op {
+		case OBvAnd:
+			return x & y
+		case OBvOr:
+			return x | y
+		case OBvXor:
+			return x ^ y
+		case OShl:
+			if y >= uint64(w) {
+				return 0
+			}
+			return x << y
+		case OLshr:
+			if y >= uint64(w) {
+				return 0
+			}
+			return x >> y
+		case OAshr:
+			if y >= uint64(w) {
+				y = uint64(w - 1)
+			}
+			return uint64(sext(x, w) >> y)
+		case OUdiv:
+			if y == 0 {
+				return mask(w)
+			}
+			return x / y
+		case OUrem:
+			if y == 0 {
+				return x
+			}
+			return x % y
+		case OSdiv:
+			if y == 0 {
+				return mask(w)
+			}
+			return uint64(sext(x, w) / sext(y, w))
+		case OSrem:
+			if y == 0 {
+				return x
+			}
+			return uint64(sext(x, w) % sext(y, w))
+		}
+		panic("BinBV")
+	})
 }
